@@ -280,6 +280,12 @@ func c01Exchanges(e *vh.Env, c c01Cfg) []c01Ex {
 		x.Script.Framing = "chunked"
 		x.Script.Steps = []vh.Step{{Op: "flush"}, {Op: "sleep", Ms: 3000}, {Op: "write", N: 400}}
 	})
+	add("stream two flushes close together", func(x *c01Ex) {
+		// two events a few milliseconds apart, then silence: the second one must not wait for the third
+		x.Stream = true
+		x.Script.Framing = "chunked"
+		x.Script.Steps = []vh.Step{{Op: "write", N: 200}, {Op: "flush"}, {Op: "sleep", Ms: 3}, {Op: "write", N: 300}, {Op: "flush"}, {Op: "sleep", Ms: 5000}, {Op: "write", N: 100}}
+	})
 	add("stream many events", func(x *c01Ex) {
 		x.Stream = true
 		x.Script.Framing = "chunked"
@@ -342,12 +348,18 @@ func init() {
 			return cs
 		},
 		func(e *vh.Env, c c01Cfg, o *vh.Out) {
-			o.Need("exchanges_compared", "stream_checks", "interim_seen", "trailers_seen", "truncated_bodies_noticed")
+			o.Need("exchanges_compared", "stream_checks", "interim_seen", "trailers_seen", "truncated_bodies_noticed", "configs_with_readded_backends")
 			bes := newBackends(c.NBack)
 			defer closeBackends(bes)
 			cfg := baseConfig(c.Strategy, bes)
+			// half of the configurations start with every backend registered under another base path on the same host and
+			// port; the backends are then removed and added again at the address under test through the admin API
+			moved := (c.Batch+len(c.Strategy)+c.NBack)%2 == 1
 			for i := range cfg.Backends {
 				cfg.Backends[i].Address = bes[i].URL + c.Base
+				if moved {
+					cfg.Backends[i].Address = bes[i].URL + "/previous" + c.Base
+				}
 			}
 			if c.Chain != "" {
 				cfg.Plugins = config.PluginsConfig{Enabled: true, Chain: []config.PluginConfig{{Name: c.Chain}}}
@@ -368,6 +380,18 @@ func init() {
 				return
 			}
 			defer sys.Close()
+			if moved {
+				adm := sys.admin()
+				for i := range cfg.Backends {
+					w1 := adminDo(adm, "POST", "/v1/backends/remove", "127.0.0.1:1", nil, fmt.Sprintf(`{"name":%q}`, cfg.Backends[i].Name))
+					w2 := adminDo(adm, "POST", "/v1/backends/add", "127.0.0.1:1", nil, fmt.Sprintf(`{"name":%q,"address":%q,"weight":1}`, cfg.Backends[i].Name, bes[i].URL+c.Base))
+					if w1.Code != 200 || w2.Code != 201 {
+						o.Inconcl("moving backend %s to its final address: remove %d, add %d %s", cfg.Backends[i].Name, w1.Code, w2.Code, w2.Body.String())
+						return
+					}
+				}
+				o.Obs("configs_with_readded_backends", 1)
+			}
 			idHdr := map[string]bool{}
 			if c.IDs {
 				idHdr["x-request-id"], idHdr["x-trace-id"] = true, true
@@ -548,38 +572,46 @@ func init() {
 					}
 				}
 				if x.Stream && rq.Method != "HEAD" {
-					// every byte the backend flushed before its first sleep must have been read before that sleep ended
-					first, firstSleep := 0, time.Duration(0)
+					// every byte the backend flushed before one of its long pauses (>= 1 s) must have been read before that
+					// pause ended; short pauses between two flushes are part of the script but decide nothing themselves
+					cum, elapsed := 0, time.Duration(0)
+					flushed := false
 					for _, st := range x.Script.Steps {
-						if st.Op == "write" {
-							first += st.N
-						}
-						if st.Op == "sleep" {
-							firstSleep = time.Duration(st.Ms) * time.Millisecond
-							break
-						}
-					}
-					at := func(res *vh.RawResp) time.Duration {
-						if first == 0 {
-							if res.Status == 0 {
-								return -1
+						switch st.Op {
+						case "write":
+							cum += st.N
+							flushed = false
+						case "flush":
+							flushed = true
+						case "sleep":
+							d := time.Duration(st.Ms) * time.Millisecond
+							if st.Ms >= 1000 && flushed {
+								first, deadline := cum, elapsed+d
+								at := func(res *vh.RawResp) time.Duration {
+									if first == 0 {
+										if res.Status == 0 {
+											return -1
+										}
+										return time.Duration(res.HeadAt) // nothing but the header was flushed: its arrival counts
+									}
+									for _, m := range res.Marks {
+										if m.N >= first {
+											return time.Duration(m.At)
+										}
+									}
+									return -1
+								}
+								ad, ap := at(dres), at(pres)
+								if ad < 0 || ad >= deadline {
+									o.Inconcl("streaming reference %q: direct client got the first %d bytes at %v", x.Label, first, ad)
+								} else {
+									o.Obs("stream_checks", 1)
+									if ap < 0 || ap >= deadline {
+										viol("stream-delayed", fmt.Sprintf("the backend flushed its header and %d body bytes by +%v and then waited %v; directly they arrive at +%v, through Helios at +%v", first, elapsed, d, ad, ap))
+									}
+								}
 							}
-							return time.Duration(res.HeadAt) // nothing but the header was flushed: its arrival counts
-						}
-						for _, m := range res.Marks {
-							if m.N >= first {
-								return time.Duration(m.At)
-							}
-						}
-						return -1
-					}
-					ad, ap := at(dres), at(pres)
-					if ad < 0 || ad >= firstSleep {
-						o.Inconcl("streaming reference %q: direct client got the first %d bytes at %v", x.Label, first, ad)
-					} else {
-						o.Obs("stream_checks", 1)
-						if ap < 0 || ap >= firstSleep {
-							viol("stream-delayed", fmt.Sprintf("the backend flushed its header and %d body bytes and then waited %v; directly they arrive at +%v, through Helios at +%v", first, firstSleep, ad, ap))
+							elapsed += d
 						}
 					}
 				}
